@@ -31,8 +31,11 @@ FILES = ["a.txt", "/data/a.txt", "/data", "sub/b.txt", "~/c.txt", "/nope/x", "",
 URLS = ["http://a.b", "https://x/y?z=1", "ftp://h", "mailto:x", "//nohost", "noscheme", "http://[bad", "", "a:b",
         "HTTP://UP", " http://sp", "http://a b", "x://"]
 BYTES = [b"", b"ab", b"\x00\xff", "text", "\u00e9", "\udc80", b"Z", "aGVsbG8=", b"\xde\xad\xbe\xef" * 3, 5, None]
-SECRETS = ["s3cr3t!#1", "p\u00e4ss w\u00f6rd!", "hunter2!!", "x!y@z#", "tok!en~value", "pw!|one", "!!secret!!"]
-CHALLENGES = ["pw!one", b"pw!two", "", "\u00fcn\u00ef!", "x!" * 20, b"\x00\xff!", "pw!one ", "Pw!one", 5, None, ["pw"]]
+SECRETS = ["s3cr3t!#1", "p\u00e4ss w\u00f6rd!", "hunter2!!", "x!y@z#", "tok!en~value", "pw!|one", "!!secret!!",
+           "a-much-longer-secret!-that-exceeds-the-32-byte-key-length#0123456789", "user:pa!ss", "\u00e9!" * 25,
+           "exactly-32-bytes-long-secret!!#32", "33-bytes-long-secret-value!!#0033x"]
+CHALLENGES = ["pw!one", b"pw!two", "", "\u00fcn\u00ef!", "x!" * 20, b"\x00\xff!", "pw!one ", "Pw!one", 5, None, ["pw"], "user:pass", "root:toor!",
+              ":"]
 PLAIN = [None, True, False, 0, 7, -3, 2 ** 40, 1.5, -0.0, "str", "", "x y", [], [1], [1, "two", None], {}, {"a": 1},
          [[1], {"b": [2]}], {"k": {"n": [1.5, None]}}, "\u00e9t\u00e9", "<&>", "key: v"]
 WRONG = [None, True, 0, 7, -3, 2 ** 70, 1.5, float("inf"), float("nan"), "str", "", b"bytes", [], [1], (1, 2), {}, {"a": 1},
@@ -196,6 +199,8 @@ def gen_normal(rng, spec, ctx):
             v = list(v)
         if isinstance(v, float) and v != v:
             continue
+        if isinstance(v, int) and not isinstance(v, bool) and v == 13:
+            continue    # the harness' schema validator 'pred' refuses 13: a declared default must be valid
         return True, v
     return False, None
 
